@@ -117,9 +117,9 @@ Definition step_noloc (cb : callback) (tid : Z) (m : str) (obj0 : Z) (st : dstat
 Definition step_loc (cb : callback) (tid : Z) (m : str) (obj0 : Z) (old : str) (st : dstate) (h : hit) : dstate :=
   let '(i, name, sub, m_end) := h in
   let st1 := if sub then st else inc_matches st in
-  let app := if mem 35 name then firstn (length m - length m_end) m else upto_colon name in
+  let app := if is_pattern name then firstn (length m - length m_end) m else upto_colon name in
   let st2 := match loc st1 with
-             | Some l => set_loc st1 (Some (if mem 35 name then old ++ app else l ++ app))
+             | Some l => set_loc st1 (Some (if is_pattern name then old ++ app else l ++ app))
              | None => st1
              end in
   restore old (set_obj (cb i m (set_port st2 (Some (tid, i)))) obj0).
@@ -416,7 +416,7 @@ Lemma tables_of_some : forall T H, tables_of T = Some H ->
              h_remap H = find_remap hs.
 Proof.
   intros T H E. unfold tables_of in E.
-  destruct (existsb (fun p => mem 35 (fst p)) (t_ports T)); [discriminate|].
+  destruct (existsb (fun p => is_pattern (fst p)) (t_ports T)); [discriminate|].
   destruct (existsb (fun p => inner_slash (fst p)) (t_ports T)); [discriminate|].
   destruct (t_ports T) as [|p0 ps]; [discriminate|].
   destruct (t_pos T) as [|q0 qs]; [discriminate|].
@@ -539,7 +539,7 @@ Proof.
   assert (Ht0 : 0 <= t) by (eapply hash_of_nonneg; [exact Ha | rewrite <- Eas; exact Hh]).
   assert (Hports : t_ports T <> []).
   { unfold tables_of in HT.
-    destruct (existsb (fun p => mem 35 (fst p)) (t_ports T)); [discriminate|].
+    destruct (existsb (fun p => is_pattern (fst p)) (t_ports T)); [discriminate|].
     destruct (existsb (fun p => inner_slash (fst p)) (t_ports T)); [discriminate|].
     destruct (t_ports T); [discriminate | discriminate]. }
   assert (Hhs : hs <> []) by (destruct hs; [destruct (t_ports T); [congruence | discriminate] | discriminate]).
@@ -657,7 +657,7 @@ Proof.
   intros cb tid m obj0 old st [[[i name] sub] pe] K L. unfold step_loc.
   assert (L1 : loc (if sub then st else inc_matches st) = Some old) by (destruct sub; exact L).
   rewrite L1, loc_restore, loc_call by assumption. cbn [set_loc loc].
-  destruct (mem 35 name); now rewrite firstn_app_exact.
+  destruct (is_pattern name); now rewrite firstn_app_exact.
 Qed.
 
 Theorem scan_loc_restores : forall cb tid ports i m args obj0 old st,
@@ -689,14 +689,14 @@ Theorem callback_sees : forall cb tid m obj0 old st i name sub pe,
   loc st = Some old ->
   step_loc cb tid m obj0 old st (i, name, sub, pe) =
   restore old (set_obj (cb i m
-    {| loc := Some (old ++ (if mem 35 name then firstn (length m - length pe) m else upto_colon name));
+    {| loc := Some (old ++ (if is_pattern name then firstn (length m - length pe) m else upto_colon name));
        matches := if sub then matches st else matches st + 1;
        obj := obj st; dport := Some (tid, i); log := log st |}) obj0).
 Proof.
   intros cb tid m obj0 old st i name sub pe L. unfold step_loc.
   assert (L1 : loc (if sub then st else inc_matches st) = Some old) by (destruct sub; exact L).
   rewrite L1. f_equal. f_equal. f_equal.
-  destruct sub, (mem 35 name); unfold set_port, set_loc, inc_matches; cbn; reflexivity.
+  destruct sub, (is_pattern name); unfold set_port, set_loc, inc_matches; cbn; reflexivity.
 Qed.
 
 (* ---- non-vacuity ---------------------------------------------------------- *)
